@@ -698,6 +698,8 @@ pub fn probe(a: &Args) {
     println!("rfc2822 = {:?}", rfc2822::parse(&text).map(|z| z.to_string()));
     println!("zoned = {:?}", text.parse::<Zoned>().map(|z| z.to_string()));
     println!("timestamp = {:?}", text.parse::<Timestamp>().map(|z| z.to_string()));
+    println!("span = {:?}", text.parse::<jiff::Span>().map(|z| format!("{z:?}")));
+    println!("sdur = {:?}", text.parse::<jiff::SignedDuration>().map(|z| format!("{z:?}")));
 }
 
 /// jv probetz STRING: TimeZone::posix on the string (triage aid).
